@@ -2,11 +2,23 @@
 """
 C02 — stream energy balance: enthalpy is conserved and invertible in temperature.
 
-The enthalpy/entropy of a stream is the real IdealMixture code over pure-component models
-that are uninterpreted functions (A-models).  The temperature solves of the mixture obey A-root
-(`W.stub_thermo`): they return T* with property(T*) == target (fresh leaf), the start value if it
-already satisfies the equation, or they *raise* (driven by the configuration) which exercises the
-`except` fall-back branches of the setters and of `mix_from`.
+Contracts (sidecar) on the real Stream / MultiStream / Mixture code; every top-level `ensures` is a sentence of the
+property.  The pure-component models h_k, s_k are uninterpreted functions of (T, P) (A-models, `W.stub_thermo`), the
+mixing rules (IdealTPMixtureModel, IdealEntropyModel, Mixture.H/S/xH/xS) and the getters with their cache are the real
+code.  The temperature solves of the mixture obey A-root: a successful solve returns some T* > 0 with
+property(T*) == target (fresh leaf; in `set_same_value` the engine's A-root-stay form: the start value itself if it is
+a root); driven by the configuration the first n solves *raise*, which exercises the `except` fall-back branches of the
+H/h/S setters (phase flip, second solve) and of `mix_from` (`self.phases = ...` retry).
+
+Groups
+  C02/set_value       assigning H, h, Hnet, S (Stream l/g/s, MultiStream gl/gls): reading back returns the assigned value
+                      on every path incl. the fall-back; frame: flows, P (and phases when the solve succeeds)
+  C02/set_same_value  assigning the value the stream already has leaves T unchanged (A-root-stay)
+  C02/mix_from        energy_balance=True: H' = sum of inlet H (read before the call) + Q (keyword and/or heat objects),
+                      P' = min P over the non-empty inlets; frame: inlets unchanged.  Receiver among the inlets,
+                      possibly-empty inlets (single-inlet shortcut), other packages, multi-phase inlets/receiver,
+                      conserve_phases, failing solves (1: setter fall-back, 2: mix_from fall-back)
+  C02/separate_out    energy_balance=True: H' = H - H(other); flows' = flows - flows(other); frame: other unchanged
 """
 import os
 import thermosteam as tmo
